@@ -629,3 +629,78 @@ def restructure(buf: bytes, first_sequence: int | None = None, drop_tfdt: bool =
     for field_off, moof_pos in bases:
         struct.pack_into('>Q', out, field_off, moof_pos)
     return bytes(out)
+
+
+def widen_ivs(buf: bytes) -> bytes:
+    """The same encrypted file with 16 byte per-sample IVs instead of 8 byte ones: tenc.default_IV_size, every senc
+    entry (the 8 IV bytes followed by 8 zero bytes - the counter block a decryptor uses is unchanged) and the saiz
+    sample info sizes; saio/trun offsets and all box sizes follow.  Written with byte edits on the layout the
+    independent parser reports, not with the library under test."""
+    root = ib.parse_file(buf)
+    edits: list[tuple[int, bytes, int]] = []   # (position, bytes inserted, bytes removed)
+    grow: list[tuple[object, int]] = []        # (box, delta) size field updates
+    out = bytearray(buf)
+
+    def chain_to(box, parents):
+        return parents + [box]
+
+    def walk(box, parents):
+        for child in getattr(box, 'children', []) or []:
+            yield child, parents + [box]
+            yield from walk(child, parents + [box])
+    moov = root.find(b'moov')
+    tenc = [(b, p) for b, p in walk(moov, []) if b.type == b'tenc']
+    assert len(tenc) == 1
+    tb = tenc[0][0]
+    # tenc: fullbox header(12) reserved(1) reserved/pattern(1) isProtected(1) iv_size(1) kid(16)
+    assert out[tb.start + 15] == 8, out[tb.start + 15]
+    out[tb.start + 15] = 16
+    inserts: list[tuple[int, bytes]] = []
+    size_delta: dict[int, int] = {}
+    moofs = [b for b in root.children if b.type == b'moof']
+    for moof in moofs:
+        traf = moof.find(b'traf')
+        senc, saiz, saio, trun = (traf.find(t) for t in (b'senc', b'saiz', b'saio', b'trun'))
+        flags = int.from_bytes(buf[senc.start + 9:senc.start + 12], 'big')
+        count = struct.unpack('>I', buf[senc.start + 12:senc.start + 16])[0]
+        pos = senc.start + 16
+        added = 0
+        for _ in range(count):
+            inserts.append((pos + 8, bytes(8)))
+            added += 8
+            pos += 8
+            if flags & 2:
+                n = struct.unpack('>H', buf[pos:pos + 2])[0]
+                pos += 2 + 6 * n
+        assert pos == senc.end, (pos, senc.end)
+        for b in (senc, traf, moof):
+            size_delta[b.start] = size_delta.get(b.start, 0) + added
+        # saiz: header(12) [aux type 8 if flags&1] default_size(1) count(4) sizes[]
+        sflags = int.from_bytes(buf[saiz.start + 9:saiz.start + 12], 'big')
+        p = saiz.start + 12 + (8 if sflags & 1 else 0)
+        if out[p]:
+            out[p] += 8
+        else:
+            n = struct.unpack('>I', buf[p + 1:p + 5])[0]
+            for i in range(n):
+                out[p + 5 + i] += 8
+        # trun.data_offset (relative to the start of the moof) moves with the moof's growth when senc precedes mdat
+        tflags = int.from_bytes(buf[trun.start + 9:trun.start + 12], 'big')
+        assert tflags & 1
+        off = struct.unpack('>i', buf[trun.start + 16:trun.start + 20])[0]
+        out[trun.start + 16:trun.start + 20] = struct.pack('>i', off + added)
+        # saio offsets (relative to the moof when default-base-is-moof) only move when the senc data lies after
+        # boxes that grew; the first IV stays where it was relative to the moof start
+    for start, delta in size_delta.items():
+        size = struct.unpack('>I', buf[start:start + 4])[0]
+        out[start:start + 4] = struct.pack('>I', size + delta)
+    for pos, data in sorted(inserts, reverse=True):
+        out[pos:pos] = data
+    # stored indexes (sidx before the fragments, mfra at the end) would now be stale: drop them, both are optional
+    res = bytes(out)
+    root2 = ib.parse_file(res)
+    drop = [b for b in root2.children if b.type in (b'sidx', b'mfra')]
+    o2 = bytearray(res)
+    for b in sorted(drop, key=lambda b: -b.start):
+        del o2[b.start:b.end]
+    return bytes(o2)
